@@ -44,21 +44,32 @@ Definition classify_frame (only_module_docstring_differs whole_module_rewrite : 
   if only_module_docstring_differs && whole_module_rewrite then Some K_module_docstring_reindented
   else target_class.
 
-(* classification of one target from its call in run 0 and (if any) its call in run 1 *)
-Definition classify_target (dotted : bool) (c0 : call_obs) (c1 : option call_obs) : option sync_class :=
+(* what can go wrong when the target is installed (first run): only the call of run 0 matters *)
+Definition classify_install (dotted : bool) (c0 : call_obs) : option sync_class :=
   if ob_found c0 && negb (ob_cmp c0) && negb (ob_replaced c0) then Some K_found_not_replaced
   else if negb (ob_found c0) && ob_present c0 then Some K_not_found_but_present
   else if negb (ob_found c0) && dotted then Some K_dotted_written_top_level
-  else
+  else None.
+
+(* what can go wrong when sync is repeated: the FIX law on the second run's call *)
+Definition classify_repeat (dotted : bool) (c0 : call_obs) (c1 : option call_obs) : option sync_class :=
+  match classify_install dotted c0 with
+  | Some k => Some k
+  | None =>
     match c1 with
     | Some c =>
       if ob_found c && negb (ob_cmp c) then
-        (if ob_replaced c then Some K_written_compares_unequal else Some K_found_not_replaced)
+        (if ob_replaced c then Some K_written_compares_unequal else None)
       else if negb (ob_found c) then
         (if dotted then Some K_dotted_written_top_level else Some K_not_found_but_present)
       else None
     | None => None
-    end.
+    end
+  end.
+
+(* classification of one target from its call in run 0 and (if any) its call in run 1 *)
+Definition classify_target (dotted : bool) (c0 : call_obs) (c1 : option call_obs) : option sync_class :=
+  classify_repeat dotted c0 c1.
 
 (* the proved region: every law instance holds on both runs *)
 Definition guard_sync_target (dotted : bool) (c0 : call_obs) (c1 : option call_obs) : bool :=
@@ -83,6 +94,15 @@ Definition run_syncspec (fn : sexp) (args : list sexp) : option sexp :=
       | Some d, Some c0, Some c1 =>
         Some (enc_option (fun k => enc_str (sync_class_name k)) (classify_target d c0 c1))
       | _, _, _ => None
+      end
+    | _ => None
+    end
+  else if is_sym "install_class" fn then
+    match args with
+    | [d; c0] =>
+      match dec_bool d, dec_obs c0 with
+      | Some d, Some c0 => Some (enc_option (fun k => enc_str (sync_class_name k)) (classify_install d c0))
+      | _, _ => None
       end
     | _ => None
     end
